@@ -14,31 +14,25 @@ theorem shrink_to_tie (m : Nat) (s : St) (hd : DataOk s.hp) :
   | stat i l => rt_step [resOf]
   | heap a l =>
     cases hg : hp.get? a with
-    | none => rt_step [hg, resOf, hr_len_none rf st hp a l _ hg]
+    | none => rt_heap_none rf st hp a l hg [resOf]
     | some b =>
       by_cases hi : max l m ≤ MAX_INLINE
       · by_cases h3 : l ≤ b.cap
         · cases hrl : hp.release a <;>
-            rt_step [hg, hi, h3, hrl, resOf, hr_len_some rf st hp a l _ hg, hr_capacity_some rf st hp a l _ hg,
-              hr_as_str_some rf st hp a l _ hg, replace_inner_step, releaseRepr]
-        · rt_step [hg, hi, h3, resOf, hr_len_some rf st hp a l _ hg, hr_capacity_some rf st hp a l _ hg, hr_as_str_some rf st hp a l _ hg]
+            rt_heap_some rf st hp a l hg [hi, h3, hrl, resOf, replace_inner_step, releaseRepr]
+        · rt_heap_some rf st hp a l hg [hi, h3, resOf]
       · by_cases hn : max l m ≥ b.cap
-        · rt_step [hg, hi, hn, resOf, hr_len_some rf st hp a l _ hg, hr_capacity_some rf st hp a l _ hg]
+        · rt_heap_some rf st hp a l hg [hi, hn, resOf]
         · by_cases h1 : b.rc = 1
           · cases hre : hp.realloc rf a (max l m) <;>
-              rt_step [hg, hi, hn, h1, hre, resOf, hr_len_some rf st hp a l _ hg, hr_capacity_some rf st hp a l _ hg,
-                hr_is_unique_some rf st hp a l _ hg]
+              rt_heap_some rf st hp a l hg [hi, hn, h1, hre, resOf]
           · by_cases h3 : l ≤ b.cap
             · rcases hw : heapWithCapacityFrom rf hp (b.data.take l) (max l m) with ⟨o, hp1⟩
               cases o with
-              | none => rt_step [hg, hi, hn, h1, h3, hw, moveTo, resOf, hr_len_some rf st hp a l _ hg, hr_capacity_some rf st hp a l _ hg,
-                  hr_is_unique_some rf st hp a l _ hg, hr_as_str_some rf st hp a l _ hg]
+              | none => rt_heap_some rf st hp a l hg [hi, hn, h1, h3, hw, moveTo, resOf]
               | some a' =>
                 cases hrl : releaseRepr hp1 (.heap a l) <;>
-                  rt_step [hg, hi, hn, h1, h3, hw, moveTo, take_len_block hd hg h3, replace_inner_step, hrl, resOf,
-                    hr_len_some rf st hp a l _ hg, hr_capacity_some rf st hp a l _ hg,
-                    hr_is_unique_some rf st hp a l _ hg, hr_as_str_some rf st hp a l _ hg]
-            · rt_step [hg, hi, hn, h1, h3, resOf, hr_len_some rf st hp a l _ hg, hr_capacity_some rf st hp a l _ hg,
-                hr_is_unique_some rf st hp a l _ hg, hr_as_str_some rf st hp a l _ hg]
+                  rt_heap_some rf st hp a l hg [hi, hn, h1, h3, hw, moveTo, take_len_block hd hg h3, replace_inner_step, hrl, resOf]
+            · rt_heap_some rf st hp a l hg [hi, hn, h1, h3, resOf]
 
 end LS.GenTie
